@@ -132,6 +132,46 @@ def run(prop, tier, seed):
                     tl.append(blk[:n].hex())
                     blk = blk[n:]
                 attr_blocks.append(tl)
+        # 2-octet-AS sessions: AS_PATH / AGGREGATOR in 2-octet form together with AS4_PATH / AS4_AGGREGATOR (RFC 6793)
+        attr_blocks2 = []
+        as4path = ['c011' + '06' + '0201' + '00030d40', 'c011' + '0e' + '0102' + '00010000' + 'ffffffff' + '0201' + '0000fde8']
+        as4agg = ['c012' + '08' + '00030d40' + 'c0000201']
+        for u in upd + check_codec.gen_vectors('updvar')['vecs']:
+            if not u['asn4']:
+                b = bytes(u['b'])[19:]
+                wl = struct.unpack('!H', b[:2])[0]
+                al = struct.unpack('!H', b[2 + wl:4 + wl])[0]
+                blk = b[4 + wl:4 + wl + al]
+                tl = []
+                while blk:
+                    n = struct.unpack('!H', blk[2:4])[0] + 4 if blk[0] & 0x10 else blk[2] + 3
+                    tl.append(blk[:n].hex())
+                    blk = blk[n:]
+                types = [int(t[2:4], 16) for t in tl]
+                if len(set(types)) != len(types) or not (2 in types or 7 in types):
+                    continue
+                if 17 not in types and 2 in types:
+                    tl.append(as4path[len(attr_blocks2) % 2])
+                if 18 not in types and 7 in types:
+                    tl.append(as4agg[0])
+                # the AS-number carrying attributes first (they are the ones whose decoding depends on the session mode)
+                tl.sort(key=lambda t: 0 if int(t[2:4], 16) in (2, 7, 17, 18) else 1)
+                attr_blocks2.append(tl)
+        seen2 = set()
+        uniq2 = []
+        for tl in attr_blocks2:
+            k = tuple(sorted(int(t[2:4], 16) for t in tl)), tuple(len(t) for t in tl)
+            if k not in seen2:
+                seen2.add(k)
+                uniq2.append(tl)
+        rnd.shuffle(uniq2)
+        for tl in uniq2[:25 if tier == 'quick' else 400]:
+            base = tl[:5]
+            for perm in itertools.permutations(base):
+                jobs.append((ident, 'perm', 'pathattr2', 'pathattr2:perm%d' % len(base), list(perm) + tl[5:], {'orig': tl}))
+                ident += 1
+            jobs.append((ident, 'insert', 'pathattr2', 'pathattr2:insert', [''.join(tl[:1]), unknown['pathattr'], ''.join(tl[1:])], None))
+            ident += 1
         for kind in ('lstlv', 'sidtlv', 'cap'):
             pool_ = sorted(set(pools.get(kind, [])))
             for a in pool_[:120 if tier == 'quick' else 10 ** 6]:
